@@ -21,7 +21,7 @@ def run(ctx: core.Ctx) -> None:
     sc.design_models(ctx, full=not ctx.quick)
     sc.replay_exact(ctx)
     n = 120 if ctx.quick else 1500
-    raws = sc.trace_runs(ctx, sc.gen_configs(ctx.seed + 1, n, 100 if ctx.quick else 400), "C04", want_resid=True, want_rf=False)
+    raws = sc.trace_runs(ctx, sc.gen_configs(ctx.seed + 1, n, 100 if ctx.quick else 400, f32_tables=True), "C04", want_resid=True, want_rf=False)
     ctx.extra["repo_tests"] = sc.repo_test_traces(ctx, "C04", ["tests/flow/test_reservoir.py", "tests/forecast/test_forecast.py", "tests/test_plots.py"], True)
     if not ctx.quick:   # the documentation notebooks, cell by cell (those that need the network stop at that cell)
         ctx.extra["notebooks"] = sc.repo_test_traces(ctx, "C04", sc.NOTEBOOKS, True, module="bbv.drivers.notebooks")
